@@ -1185,7 +1185,7 @@ def _m_issubclass(ctx, a, b):
 @register(builtins.callable)
 def _m_callable(ctx, x):
     from .interp import InterpFunction, BoundMethod, SObj, static_lookup
-    if isinstance(x, (InterpFunction, BoundMethod, _M)):
+    if isinstance(x, (InterpFunction, BoundMethod, _M, PartialModel)):
         return True
     if isinstance(x, SObj):
         return static_lookup(x.cls, '__call__') is not None
@@ -1739,3 +1739,35 @@ def _m_uuid(ctx, *a, **k):
     if not ctx.branch(z3.Length(b.t) == 16):
         py_raise(ValueError('bytes is not a 16-char string'))
     return SObj(_uuid.UUID, {'bytes': b})
+
+
+import functools as _functools
+
+
+class PartialModel(object):
+    """functools.partial over interpreter callables."""
+
+    def __init__(self, func, args, keywords):
+        self.func = func
+        self.args = tuple(args)
+        self.keywords = dict(keywords)
+
+    def __repr__(self):
+        return '<partial %r>' % (self.func,)
+
+
+@register(_functools.partial)
+def _m_partial(ctx, func, *args, **kw):
+    return PartialModel(func, args, kw)
+
+
+import binascii as _binascii
+
+
+@register(_binascii.hexlify)
+def _m_hexlify(ctx, data, *a):
+    """E-HEX: the hexadecimal text of the bytes (opaque here: only ever used in messages)."""
+    from .interp import deep_concrete
+    if deep_concrete(data) and deep_concrete(a):
+        return _binascii.hexlify(data, *a)
+    return ctx.fresh_bytes('hexlified', register=False)
